@@ -141,3 +141,123 @@ class lb_update_pref_col:
         yield "preferred-column-of-the-focus-widget-else-kept", ite(either(mk_bool(g[0].isnone), mk_bool(want.isnone)), V.opt_eq(s.pref_col, old.pref_col), V.opt_eq(s.pref_col, want.val))
 
     static_checks = [_writes_within(LBX + "ListBox.update_pref_col_from_focus", ("pref_col",), ())]
+
+
+# ------------------------------------------------------------------------------------------------ change_focus (scroll state)
+
+from contracts.C08_listbox import CURSOR_ARG, LISTBOX, widget_at  # noqa: E402
+
+
+def cf_is(cf, name):
+    """`coming_from == name` for an optional direction (a formula; never forks)."""
+    if cf is None:
+        return False
+    if isinstance(cf, V.SOpt):
+        return both(neg(mk_bool(cf.isnone)), cf.val == name)
+    return cf == name
+
+
+def snapped(oi, coming_from, selectable, tgt_rows, maxrow, snap_rows):
+    """The offset / inset change_focus settles on: a selectable target that is entered from above and would end below the
+    bottom edge (entered from below and would start above the top edge) is pulled into the box -- flush with the edge it
+    crosses if at most `snap_rows` rows of scrolling do that, else flush with the opposite edge if that is within reach
+    (a target taller than the box), else `snap_rows` rows towards the box.  Anything else stays where it was asked."""
+    top, bottom = 0, maxrow - tgt_rows
+    from_above = both(cf_is(coming_from, "above"), selectable, oi > bottom)
+    oi = ite(from_above, ite(snap_rows >= oi - bottom, bottom, ite(snap_rows >= oi - top, top, oi - snap_rows)), oi)
+    from_below = both(cf_is(coming_from, "below"), selectable, oi < top)
+    return ite(from_below, ite(snap_rows >= top - oi, top, ite(snap_rows >= bottom - oi, bottom, oi + snap_rows)), oi)
+
+
+def _cf_target(s, a, ver):
+    """(target widget, its rows with focus, selectable) of change_focus(position): the widget the walker (in state version
+    `ver`) has at the position."""
+    tw = widget_at(s._body, ver, a.position)
+    return tw, rows_of(tw, a.size[0], True), W.call_quiet(cur(), tw, "selectable", {})
+
+
+def _cf_final(s, a, ver):
+    tw, rows, sel = _cf_target(s, a, ver)
+    snap = a.size[1] - 1 if a.snap_rows is None else (ite(mk_bool(a.snap_rows.isnone), a.size[1] - 1, a.snap_rows.val) if isinstance(a.snap_rows, V.SOpt) else a.snap_rows)
+    return tw, rows, snapped(a.offset_inset, a.coming_from, sel, rows, a.size[1], snap)
+
+
+def _cursor_row_bad(a, rows):
+    cc = a.cursor_coords
+    if isinstance(cc, tuple) and len(cc) == 2:
+        return either(cc[1] < 0, cc[1] >= rows)
+    return False
+
+
+@contract(LBX + "ListBox.change_focus", property=("C07", "C08"), replayable=False, alias="C07-scroll")
+class lb_change_focus_scroll:
+    """What change_focus leaves in the scroll state: the walker's focus is the position asked; the offset asked -- after
+    snapping a selectable target into the box (`snapped`) -- is stored as shift_focus would store it (offset >= 0 as it is,
+    an inset as the fraction of the target's focused rows), and the call is refused (ListBoxError, focus already moved)
+    exactly when the inset would hide the whole target.  NOT checked against the bottom edge: an offset >= maxrow is
+    stored as asked (callers owe `offset < maxrow`)."""
+
+    self_shape = LISTBOX
+    params = dict(size=Tup(Int, Int), position=Int, offset_inset=Int, coming_from=Opt(Enum("above", "below")), cursor_coords=CURSOR_ARG, snap_rows=Opt(Int))
+    raises = (_lbmod.ListBoxError, ValueError, IndexError, KeyError)
+    modifies = ("offset_rows", "inset_fraction", "pref_col")
+    loops = {0: Loop(invariant=lambda v: True)}
+
+    def requires(s, a):
+        return both(a.size[0] >= 0, a.size[0] < DIMMAX, a.size[1] >= 0, a.size[1] < DIMMAX)
+
+    def ensures(old, s, a, result):
+        tw, rows, final = _cf_final(old, a, 0)
+        now = walker_focus(s, "exit")
+        yield "focus-is-the-position-asked", both(neg(mk_bool(now[0].isnone)), now[1] == a.position, eq(val(now[0]), tw))
+        yield "offset-or-inset-stored-after-snapping", stored_as(s, final, rows)
+        yield "not-refused", either(final >= 0, final + rows > 0)
+        yield "scroll-state-sane", lb_ok(s)
+        yield "invalidated", count_ev(s.trace, "_invalidate") == 1
+        moved = [ev for ev in cur().trace if ev[0] == "call" and ev[1].kind == "Widget" and ev[2] in ("move_cursor_to_coords", "keypress", "mouse_event")]
+        yield "cursor-moved-in-the-new-focus-widget-only", both(True, *[both(eq(ev[1], tw), ev[2] == "move_cursor_to_coords", V.struct_eq(ev[3]["size"], (a.size[0],))) for ev in moved])
+        cc = a.cursor_coords
+        if cc is not None:
+            yield "preferred-column-is-the-cursor-column-given", V.opt_eq(s.pref_col, cc[0])
+        else:
+            g = walker_focus(old, "entry")
+            want = pref_col_of(val(g[0]), a.size[0])
+            yield "preferred-column-taken-from-the-old-focus", ite(either(mk_bool(g[0].isnone), mk_bool(want.isnone)), V.opt_eq(s.pref_col, old.pref_col), V.opt_eq(s.pref_col, want.val))
+
+    def on_raise(old, s, a, exc):
+        tw, rows, final = _cf_final(old, a, 0)
+        if exc.cls in (IndexError, KeyError):
+            yield "walker-refused-nothing-moved", both(walker_focus(s, "now")[1] == walker_focus(old, "entry")[1], same_scroll_state(s, old))
+        elif exc.cls is ValueError:
+            yield "only-without-a-direction-for-a-cursor-column", both(V.opt_isnone(a.coming_from), isinstance(a.cursor_coords, tuple) and len(a.cursor_coords) == 1)
+        else:
+            yield "only-for-an-inset-that-hides-the-target-or-a-cursor-row-outside-it", either(both(final < 0, final + rows <= 0), _cursor_row_bad(a, rows))
+            yield "focus-already-moved", walker_focus(s, "now")[1] == a.position
+
+    # ---- callee use: the walker has a new state, in which its focus is the position asked, with the widget it had there
+    def effects(old, s, a, result):
+        st = cur()
+        P = PROTOCOLS["ListWalker"]
+        tw, rows, final = _cf_final(old, a, P.version(st, s._body))
+        st.ghost["cf_target"] = (tw, rows, final)
+        P.bump(st, s._body)
+        now = walker_focus(s, "now")
+        st.assume(both(neg(mk_bool(now[0].isnone)), now[1] == a.position, eq(val(now[0]), tw)))
+
+    def ensures_callee(old, s, a, result):
+        tw, rows, final = cur().ghost["cf_target"]
+        yield "offset-or-inset-stored-after-snapping", stored_as(s, final, rows)
+        yield "not-refused", either(final >= 0, final + rows > 0)
+
+    def on_raise_callee(old, s, a, exc):
+        st = cur()
+        if exc.cls is _lbmod.ListBoxError:
+            P = PROTOCOLS["ListWalker"]
+            tw, rows, final = _cf_final(old, a, P.version(st, s._body))
+            yield "only-for-an-inset-that-hides-the-target-or-a-cursor-row-outside-it", either(both(final < 0, final + rows <= 0), _cursor_row_bad(a, rows))
+            P.bump(st, s._body)
+            yield "focus-already-moved", walker_focus(s, "now")[1] == a.position
+        elif exc.cls is ValueError:
+            yield "only-without-a-direction-for-a-cursor-column", both(V.opt_isnone(a.coming_from), isinstance(a.cursor_coords, tuple) and len(a.cursor_coords) == 1)
+        else:
+            yield "walker-refused-nothing-moved", same_scroll_state(s, old)
